@@ -22,7 +22,7 @@ import (
 const xmlNS = "http://www.w3.org/XML/1998/namespace"
 
 type label struct {
-	kind  int // 0 element, 1 attribute, 2 text
+	kind  int // 0 element, 1 attribute, 2 text, 3 comment / processing instruction / directive (written as is)
 	name  xml.Name
 	value string
 }
@@ -85,6 +85,11 @@ func buildVocab(samples []string) *vocab {
 	}
 	add(label{kind: 2, value: "x"})
 	add(label{kind: 2, value: " \n"})
+	// tokens that are neither elements nor text: a decoder that walks the token
+	// stream by hand meets them wherever a peer puts them
+	add(label{kind: 3, value: "<!--c-->"})
+	add(label{kind: 3, value: "<?pi x?>"})
+	add(label{kind: 3, value: "<!d>"})
 	return v
 }
 
@@ -93,6 +98,7 @@ type tnode struct {
 	attrs    []xml.Attr
 	children []*tnode
 	text     string
+	raw      bool // text is markup written as is (comment, processing instruction, directive)
 }
 
 type treeGen struct {
@@ -121,8 +127,10 @@ func (t *treeGen) element(name xml.Name) *tnode {
 				}
 			}
 			n.attrs = append(n.attrs, xml.Attr{Name: l.name, Value: l.value})
+		case 3:
+			n.children = append(n.children, &tnode{text: l.value, raw: true})
 		default:
-			if k := len(n.children); k > 0 && n.children[k-1].name.Local == "" {
+			if k := len(n.children); k > 0 && n.children[k-1].name.Local == "" && !n.children[k-1].raw {
 				t.dup = true // two adjacent text nodes are one text node: already covered
 			}
 			n.children = append(n.children, &tnode{text: l.value})
@@ -132,6 +140,10 @@ func (t *treeGen) element(name xml.Name) *tnode {
 }
 
 func (n *tnode) write(b *strings.Builder, parentNS string) {
+	if n.raw {
+		b.WriteString(n.text)
+		return
+	}
 	if n.name.Local == "" {
 		xml.EscapeText(b, []byte(n.text))
 		return
